@@ -12,6 +12,7 @@ import (
 
 func MonC08() *Mon {
 	first := map[uint32]vt.H{}
+	decided := map[*Node]map[uint32]bool{}
 	return &Mon{Name: "C08",
 		Panic: func(n *Node, c *Call, msg string) {
 			n.W.Fail("C08", fmt.Sprintf("node %d: the library panicked in %s in a fault-free synchronous run (%s): it decides nothing any more", n.ID, c.Kind, msg), "panic-in-fault-free-run")
@@ -43,6 +44,15 @@ func MonC08() *Mon {
 				n.W.Fail("C08", fmt.Sprintf("node %d accepted a different block at height %d", n.ID, b.Idx), "different-blocks")
 			}
 			first[b.Idx] = b.Hash()
+			// "decides every height": once - a whole round that reached the node before it entered the height must not
+			// be decided twice while it is replayed (seeded change C08l)
+			if decided[n] == nil {
+				decided[n] = map[uint32]bool{}
+			}
+			if decided[n][b.Idx] {
+				n.W.Fail("C08", fmt.Sprintf("node %d handed the block of height %d to the application a second time", n.ID, b.Idx), "decided-twice")
+			}
+			decided[n][b.Idx] = true
 		},
 		EndOfRun: func(w *World) {
 			t := w.TimedRes
@@ -78,7 +88,7 @@ func MonProgress(prop string, maxView int) *Mon {
 		v byte
 	}
 	props := map[int]map[hv]vt.H{} // per identity (survives restarts): proposals broadcast
-	reproposed := false
+	reproposed := map[uint32]bool{} // heights at which a restarted validator broadcast a second, different proposal for one view
 	// heights at which the primary of a view entered that view while processing a recovery
 	// message: by design (#74) it then waits a whole view timeout instead of proposing at once
 	recoveringPrimary := map[uint32]bool{}
@@ -121,7 +131,7 @@ func MonProgress(prop string, maxView int) *Mon {
 			}
 			k := hv{p.Ht, p.V}
 			if old, ok := m[k]; ok && old != p.Hash() && n.Faulty {
-				reproposed = true
+				reproposed[p.Ht] = true
 				n.W.Stat("restarted_primary_reproposed")
 			}
 			m[k] = p.Hash()
@@ -152,7 +162,21 @@ func MonProgress(prop string, maxView int) *Mon {
 				return
 			}
 			key := "stalled"
-			if reproposed {
+			// D11 is the stall AT THE HEIGHT of the double proposal, with somebody commit-locked there (on the first
+			// proposal, while others follow the second): a stall anywhere else in such a run is not that finding
+			stuckAt, locked := uint32(0), false
+			for _, n := range w.Nodes {
+				if n == nil || n.Crashed || n.Silent || n.D == nil || n.D.Validators == nil || !n.Active() || n.D.BlockSent() {
+					continue
+				}
+				if stuckAt == 0 || n.D.BlockIndex < stuckAt {
+					stuckAt, locked = n.D.BlockIndex, false
+				}
+				if n.D.BlockIndex == stuckAt && (n.D.CommitSent() || n.D.PreCommitSent()) {
+					locked = true
+				}
+			}
+			if reproposed[stuckAt] && locked {
 				key = "D11-restarted-primary-reproposed"
 			} else if h, ok := commitLockedBelow(w); ok && commitAfterCV[h] {
 				key = "D20-commit-after-changeview-lock"
